@@ -81,7 +81,6 @@ C03_OPS = [
     ('bool_rt_al', 'm', 'm', '%(BB)s::load_aligned(buf)', 'alignas(64) bool buf[%(N)d]; a.store_aligned(buf);'),
     ('bool_load', 'x:bool const* a', 'm', '%(BB)s::load_unaligned(a)'),
     ('bool_store', 'x:bool* a|m', 'void', 'b.store_unaligned(a);'),
-    ('mcast_bits', 'm', 'v', 'xsimd::bitwise_cast<%(T)s>(a)'),
 ]
 
 
